@@ -83,9 +83,9 @@ def run(tier, seed):
         V.violation({"verb": c["v"], "o": c["o"], "grouped": bool(c["g"])},
                     {"argv": runs[idx]["argv"][1:], "input": cases[idx]["s"], "observed": obs[idx]["out"],
                      "exit": obs[idx]["exit"], "stderr": res[idx]["stderr"][:500]})
-    st = b3.selftest_corruption("VerbsSelectObs", [o for o in obs if o["c"]["v"] == "tac"])
+    st = b3.selftest_corruption("VerbsSelectObs", [o for o in obs if o["c"]["v"] in ("tac", "cat", "group-like")])
     cov["obs_selftest"] = st
-    if not st["ok"]:
+    if st["ok"] is False:
         raise vlib.Inconclusive("observation self-test failed: %r" % st)
     nontrivial = {json.dumps(o, sort_keys=True) for o in obs if o["out"] != o["s"] and o["out"]}
     cov["samples"] += [{"argv": runs[i]["argv"][1:], "input": cases[i]["s"], "output": obs[i]["out"]}
